@@ -22,3 +22,4 @@ def run(ck):
     deadcmp.r_equality_with_unreachable_value(ck, P, 'C03-R14', floor=300)   # the missed saturation walks rows outside the image
     traps.r5_trap_shortcut(ck, P)             # C03-R5: the direct trapezoid route is taken only where clips and masks cannot matter
     status.r19_14_direct_fill_passes_the_image_bounds(ck, P, 'C03-R15')
+    geometry.r_coordinate_split_floors(ck, P)
